@@ -132,19 +132,21 @@ def classify_failures(prop, v, fails, crashes, max_replays=5):
 
 
 def run_ref_sweeps(hbin, wd, seed, plan):
-    """plan: list of (profile, n). Returns results, crashes, stats."""
+    """plan: list of (profile, n) [mode ref] or (mode, profile, n). Returns results, crashes, stats."""
     from vcheck import sweep
     allres, allcr, stats = [], [], {}
-    for profile, n in plan:
-        res, cr = sweep(hbin, "diff", ["--mode", "ref", "--profile", profile, "--seed", str(seed), "--dump-failing", wd], n, wd,
-                        "ref_" + (profile or "full"))
+    for entry in plan:
+        mode, profile, n = ("ref",) + tuple(entry) if len(entry) == 2 else entry
+        res, cr = sweep(hbin, "diff", ["--mode", mode, "--profile", profile, "--seed", str(seed), "--dump-failing", wd], n, wd,
+                        "%s_%s" % (mode, profile or "full"))
         for r in res:
             r["profile"] = profile
         allres += res
         allcr += cr
-        stats[profile or "full"] = {
+        stats["%s/%s" % (mode, profile or "full")] = {
             "cases": len(res), "native": sum(1 for r in res if r.get("path") == "native"),
             "nontrivial": sum(1 for r in res if r.get("nontrivial")),
+            "skipped": sum(1 for r in res if r.get("skipped")),
             "failing": sum(1 for r in res if r.get("fail")),
             "steps_gt_batch": sum(1 for r in res if r.get("steps", 0) > 10),
             "instant": sum(1 for r in res if r.get("steps", 0) == 1),
@@ -178,6 +180,16 @@ def replay_witnesses(hbin, wd, prop):
     return notes
 
 
+ORACLE_TEXT = {
+    "ref": "engine result == reference engine result (type, label sets, timestamps, values within 1e-9 relative, error parity)",
+    "instants": "range result at t == instant query at t for every grid t, no off-grid points, sub-window == restriction",
+    "opt": "result with optimizer sets {default, all, each alone, reordered} == result with no optimizers",
+    "procs": "result at GOMAXPROCS 1..16, with unrelated series added, under injected yields and on repetition == base result",
+    "perm": "result under random permutations of the storage's series order == base result",
+    "wf": "successful result is a well-formed PromQL value (sorted, distinct label sets, non-empty series, increasing on-grid timestamps, no stale marker)",
+}
+
+
 def ref_family_check(prop, tier, seed, plan_quick, plan_thorough, corr=None, design="", extra_assumptions=None):
     t0 = time.time()
     v = Verdict(prop)
@@ -206,7 +218,7 @@ def ref_family_check(prop, tier, seed, plan_quick, plan_thorough, corr=None, des
         _obligation_failures(prop, v, ob_fails)
 
     evals = len(res)
-    distinct = len({(r["query"], r["window"]["Start"], r["window"]["Step"], r["n_series"]) for r in res if r.get("nontrivial")})
+    distinct = len({(r["query"], r["window"]["Start"], r["window"]["Step"], r.get("n_series", 0)) for r in res if r.get("nontrivial")})
     samples = [{k: r.get(k) for k in ("query", "window", "lookback_ms", "query_lookback_ms", "gomaxprocs", "n_series", "path", "steps")}
                for r in res[:: max(1, len(res) // 8)]][:8]
     cov = {
@@ -218,10 +230,10 @@ def ref_family_check(prop, tier, seed, plan_quick, plan_thorough, corr=None, des
         "evaluations": evals, "distinct_nontrivial": distinct,
         "rule": "cases = (dataset, query, window, lookback, GOMAXPROCS) from one PRNG state (VERIF_SEED, case id), generator profiles %s; "
                 "non-trivial = the reference engine returns a non-empty result or an error; distinct by (query, window, series count)"
-                % [p or "full" for p, _ in plan],
+                % [("%s/%s" % (e[0], e[1] or "full")) if len(e) == 3 else (e[0] or "full") for e in plan],
         "samples": samples,
         "correspondence": corr_info,
-        "search": {"oracle": "engine result == reference engine result (type, label sets, timestamps, values within 1e-9 relative, error parity)",
+        "search": {"oracle": {m: ORACLE_TEXT.get(m, m) for m in sorted({(e[0] if len(e) == 3 else "ref") for e in plan})},
                    "per_profile": stats, "failing_cases": len(fails), "attributed_to_known_findings": hits,
                    "skipped_reference_nondeterministic": skipped, "new_violations": n_new, "process_crashes": len(crashes)},
         "known_findings_printed": v.known,
@@ -266,4 +278,54 @@ def check_C02(tier, seed, replay=None):
                             [("selector", 60000), ("selpair", 30000)], corr=corr_selector)
 
 
-CHECKS = {"C08": check_C08, "C02": check_C02}
+def corr_range(hbin, wd, tier, seed):
+    """C03: the real engine on count_over_time/last_over_time vs Range.v (incremental windows) in Coq."""
+    shards, per = (16, 25) if tier == "quick" else (32, 150)
+
+    def gen(i):
+        out = os.path.join(wd, "cases_C03_%d.v" % i)
+        p = run([hbin, "rngcases", "--seed", str(seed), "--from", str(i * per), "--to", str((i + 1) * per), "--out", out], timeout=600)
+        return out, json.loads(p.stdout.strip().splitlines()[-1])
+
+    from concurrent.futures import ThreadPoolExecutor
+    with ThreadPoolExecutor(max_workers=16) as ex:
+        outs = list(ex.map(gen, range(shards)))
+    tot = {"cases": 0, "series_with_points": 0, "range_gt_step": 0, "range_le_step": 0}
+    for _, st in outs:
+        for k in tot:
+            tot[k] += st[k]
+    res = eval_case_files([o for o, _ in outs])
+    bad = []
+    for r in res:
+        if not r["ok"]:
+            bad.append({"file": r["file"], "error": r["log"][-800:]})
+        else:
+            bad += [{"file": r["file"], "case": i} for i in r["bad"]]
+    info = dict(tot, model="Range.ms_scan (selectPoints with previous-points reuse, buffered iterator, ReduceDelta) vs the engine "
+                           "on count_over_time/last_over_time", disagreements=len(bad))
+    return info, bad
+
+
+def check_C03(tier, seed, replay=None):
+    return ref_family_check("C03", tier, seed, [("range", 3000)], [("range", 60000)], corr=corr_range)
+
+
+def check_C07(tier, seed, replay=None):
+    return ref_family_check("C07", tier, seed,
+                            [("instants", "nostartend", 1500), ("instants", "range", 400)],
+                            [("instants", "nostartend", 30000), ("instants", "range", 8000), ("instants", "agg", 8000)])
+
+
+def check_C11(tier, seed, replay=None):
+    return ref_family_check("C11", tier, seed,
+                            [("procs", "", 500), ("perm", "noties", 1500), ("procs", "selector", 300)],
+                            [("procs", "", 8000), ("perm", "noties", 30000), ("procs", "selector", 5000), ("procs", "agg", 4000)])
+
+
+def check_C19(tier, seed, replay=None):
+    return ref_family_check("C19", tier, seed,
+                            [("wf", "", 3000), ("wf", "bin", 1500), ("wf", "func", 1000)],
+                            [("wf", "", 60000), ("wf", "bin", 30000), ("wf", "func", 20000), ("wf", "deep", 20000)])
+
+
+CHECKS = {"C08": check_C08, "C02": check_C02, "C03": check_C03, "C07": check_C07, "C11": check_C11, "C19": check_C19}
